@@ -76,13 +76,37 @@ CmpBoundary == FlattenSeq([j1 \in 1..8 |->
    IN (IF NLess(up, Two256) THEN << [kind |-> "cmp", v |-> Fit32(up)], [kind |-> "cmp", v |-> Fit32(upZero)] >> ELSE <<>>)
       \o << [kind |-> "cmp", v |-> Fit32(dn)], [kind |-> "cmp", v |-> Fit32(dnOnes)] >>
       \o ScanDown(NAdd(dn, NFromNat(1)), 2, 12, <<>>) \o ScanDown(NAdd(dnOnes, NFromNat(1)), 2, 12, <<>>)])
-Cases == FlattenSeq([i \in 1..NBases |-> Mutations(Bases[i])]) \o Absolutes \o EdgeValidC \o EdgeAliases \o CmpBoundary
+\* Valid encodings with a word pattern: one 64-bit (or 32-bit) limb all ones, all zeros, or equal to the modulus'
+\* limb (+-1), the other limbs taken from a filler value.  These are the operands on which a hand-written
+\* carry / borrow chain (negation q - s, comparison with q, limb-wise parsing) takes its rare branches.
+\* Found by scanning with DecodeSpec in steps of one unit of a limb that does not carry the pattern.
+RECURSIVE ScanStep(_, _, _, _, _)
+ScanStep(v, step, want, budget, acc) ==
+  IF want = 0 \/ budget = 0 \/ ~NLess(v, P) THEN acc
+  ELSE IF Accepts(v) THEN ScanStep(NAdd(v, step), step, want - 1, budget - 1, Append(acc, [kind |-> "limb", v |-> Fit32(v)]))
+       ELSE ScanStep(NAdd(v, step), step, want, budget - 1, acc)
+LimbOf(v, j, w) == NMod(NDiv(v, NPow2(w * j)), NPow2(w))
+WithLimb(v, j, w, x) == NAdd(NSub(v, NMul(LimbOf(v, j, w), NPow2(w * j))), NMul(x, NPow2(w * j)))
+Filler(i) == NMod(NMul(Bases[5], NFromNat(2 * i + 3)), NShr1(P))
+LimbPatterns(w) == LET nl == 256 \div w
+                       ones == NSub(NPow2(w), NFromNat(1)) IN
+  FlattenSeq([j1 \in 1..nl |-> LET j == j1 - 1
+                                    qj == LimbOf(P, j, w)
+                                    pats == << ones, NFromNat(0), qj, NAdd(qj, NFromNat(1)) >>
+                                             \o (IF qj = NZero THEN <<>> ELSE << NSub(qj, NFromNat(1)) >>)
+                                    step == IF j = 0 THEN NPow2(w) ELSE NFromNat(1) IN
+     FlattenSeq([k \in 1..Len(pats) |->
+        IF NLess(ones, pats[k]) THEN <<>>
+        ELSE ScanStep(WithLimb(Filler(5 * j1 + k), j, w, pats[k]), step, IF w = 64 THEN 4 ELSE 2, 60, <<>>)])])
+ASSUME TLCSet(34, LimbPatterns(64) \o LimbPatterns(32))
+LimbPatternsC == TLCGet(34)
+Cases == FlattenSeq([i \in 1..NBases |-> Mutations(Bases[i])]) \o Absolutes \o EdgeValidC \o EdgeAliases \o CmpBoundary \o LimbPatternsC
 PlanRec(i) == LET c == Cases[i] r == DecodeBytes(c.v) IN
   [k |-> "decin", kind |-> c.kind, b |-> c.v, entries |-> IF i <= 300 \/ c.kind = "abs" THEN "all" ELSE "one",
    ok |-> r.ok, err |-> r.err, cls |-> DecodeClass(c.v)]
 ASSUME TLCSet(32, Cases)
 ASSUME ndJsonSerialize(IOEnv.PLAN_OUT, [i \in 1..Len(TLCGet(32)) |-> LET c == TLCGet(32)[i] r == DecodeBytes(c.v) IN
-         [k |-> "decin", kind |-> c.kind, b |-> c.v, entries |-> IF i <= 300 \/ c.kind \in {"abs", "edge_valid", "alias_edge", "cmp"} THEN "all" ELSE "one",
+         [k |-> "decin", kind |-> c.kind, b |-> c.v, entries |-> IF i <= 300 \/ c.kind \in {"abs", "edge_valid", "alias_edge", "cmp", "limb"} THEN "all" ELSE "one",
           ok |-> r.ok, err |-> r.err, cls |-> DecodeClass(c.v)]])
 ASSUME PrintT(<<"PLAN-WRITTEN", Len(TLCGet(32))>>)
 VARIABLE x
